@@ -59,12 +59,71 @@ def raw_layer(tier, seed, ev, rep):
     rep.note(f"raw layer: {stats}")
 
 
+BK_INV = ("NoDuplicateRecord", "KeyLenOK", "ListedIsReadable", "ListedIsPut", "SessionSeesAll", "ClosedWhenIdle")
+BK_PROPS = ("FailedOpIsNoOp", "FirstValueStays", "HeadersPreserved", "RecordsImmutable", "InsertOnly")
+BK_ACTIONS = ("Make", "Begin", "CPut", "CGet", "End")
+BUFS = {"BufM1": -1, "Buf0": 0, "BufS": 6, "BufL": 100000}
+
+
+def bk_cfg(tier, buf, ro, dev="DevNone", colls="C2"):
+    big = tier == "thorough"
+    return dict(spec="Spec", constants={
+        "Key": "<- KeysT" if big else "<- KeysQ", "Val": "<- ValsT" if big else "<- ValsQ",
+        "KeyLen": "<- KLen", "ValLen": "<- VLen", "Coll": f"<- {colls}", "RO": f"<- {ro}", "Buf": f"<- {buf}",
+        "Hdr": "<- HdrQ", "NoHdr": '"none"', "MaxRecs": 3, "Deviations": f"<- {dev}"},
+        invariants=BK_INV, properties=BK_PROPS, view="View")
+
+
+def norm_cobs(o):
+    if isinstance(o, dict):
+        o = dict(o)
+        if isinstance(o.get("recs"), list):
+            o["recs"] = sorted(o["recs"])
+        for c in (o.get("c") or {}).values():
+            if isinstance(c, dict) and isinstance(c.get("keys"), list):
+                c["keys"] = sorted(c["keys"])
+    return o
+
+
+def backend_layer(tier, seed, ev, rep):
+    from ..adapters.backend import BackendAdapter
+    for dev in ("DevPhantom", "DevQueue", "DevLate"):
+        expect_violation("MCBackend", bk_cfg("quick", "BufS", "ROrw", dev), BK_INV, tag="c02dev")
+    configs = [("BufM1", "ROmix"), ("Buf0", "ROrw"), ("BufS", "ROrw"), ("BufL", "ROmix")]
+    colls, cname = (("c1", "c2"), "C2")
+    if tier == "thorough":
+        configs += [("BufMix", "ROmix")]
+    for buf, ro in configs:
+        cn, cl = (cname, colls)
+        if buf == "BufMix":
+            cn, cl = "C3", ("c1", "c2", "c3")
+        cfg = bk_cfg(tier, buf, ro, colls=cn)
+        model_check(ev, "MCBackend", cfg, role=f"Backend invariants ({buf},{ro})", tag="c02bk",
+                    require_actions=BK_ACTIONS)
+        edges = emit_graph(ev, "MCBackend", cfg, role=f"Backend edges ({buf},{ro})", tag="c02bkemit")
+        for e in edges:
+            e["obs"] = norm_cobs(e["obs"])
+        g = replay.Graph(edges)
+        bufmap = {"c1": 6, "c2": -1, "c3": 100000} if buf == "BufMix" else {c: BUFS[buf] for c in cl}
+        romap = {c: (ro == "ROmix" and c == "c2") for c in cl}
+        stats, viol, khits, kgone, samples = replay.cover(
+            g, lambda: BackendAdapter(cl, ro=romap, buf=bufmap), seed=seed)
+        ev.count(evaluations=stats["steps"], distinct_nontrivial=stats["pairs_exercised"], traces=stats["paths"])
+        ev.cov.setdefault("backend_replay", {})[f"{buf},{ro}"] = stats
+        ev.add_samples([{"layer": f"Collection {buf} {ro}", "path": s} for s in samples], 1)
+        for v in viol:
+            v["config"] = {"buf": bufmap, "ro": romap, "colls": list(cl)}
+            rep.violation("replay-backend", v, what="; ".join(v["differences"][:3]))
+        rep.note(f"backend layer {buf},{ro}: {stats}")
+
+
 def run(tier, seed, replay_path):
     ev = Evidence(PROP, tier, seed)
     rep = Reporter(PROP, ev)
     if replay_path:
         return do_replay(replay_path)
     raw_layer(tier, seed, ev, rep)
+    backend_layer(tier, seed, ev, rep)
     ev.set(rule="one case = one (spec state, action) pair of the bounded TLC graph replayed on real objects; "
                 "non-trivial = distinct pair; evaluations = real calls made")
     ev.assumptions += ["scope: one writable handle at a time (collection lock), mode 'w' re-creation not generated",
@@ -79,7 +138,8 @@ def do_replay(path):
         ad = UKVAdapter(("h1", "h2", "h3"))
     else:
         from ..adapters.backend import BackendAdapter
-        ad = BackendAdapter()
+        c = doc["config"]
+        ad = BackendAdapter(tuple(c["colls"]), ro=c["ro"], buf=c["buf"])
     try:
         res = replay.run_path(ad, doc["path"])
     finally:
